@@ -261,10 +261,13 @@ func vc46Fire(h *peerHandler) bool {
 	ok := t != nil && t.Stop()
 	h.mu.Unlock()
 	if ok {
-		go h.reconnect()
+		vc46FireRaw(h)
 	}
 	return ok
 }
+
+// vc46FireRaw runs the timer function the way an expiring timer does.
+func vc46FireRaw(h *peerHandler) { go h.reconnect() }
 
 // vc46Disarm stops a leaked timer at the end of a case so that it cannot fire
 // into a later case.
@@ -314,7 +317,7 @@ func vc46ServiceGoroutines() (pending, inConnect int, sample string) {
 		if !(strings.Contains(root, "boxo/peering.(*peerHandler).") ||
 			strings.Contains(root, "boxo/peering.(*PeeringService).") ||
 			strings.Contains(root, "boxo/peering.(*netNotifee).") ||
-			strings.Contains(root, "boxo/peering.vc46Fire.")) {
+			strings.Contains(root, "boxo/peering.vc46Fire")) {
 			continue
 		}
 		if strings.Contains(b, "boxo/peering.(*vc46Host).Connect") {
@@ -482,7 +485,20 @@ func (w *vc46World) checkTerminated() {
 		}
 		d := late()
 		firedNow := false
-		if d == nil && st == vc46TimerPending {
+		if d == nil && st != vc46TimerPending && t.pre != nil && t.pre != cur && t.pre.Stop() {
+			// the timer that was armed before the terminator is no longer referenced
+			// by the handler but is still pending: let it elapse
+			w.k.C.Count("orphan_pending_timer_on_terminated_handler", 1)
+			how = "timer-left-armed"
+			st = vc46TimerPending
+			firedNow = true
+			vc46FireRaw(h)
+			if !w.quiesce(false) {
+				return
+			}
+			d = late()
+		}
+		if d == nil && st == vc46TimerPending && !firedNow {
 			w.k.C.Count("pending_timer_on_terminated_handler", 1)
 			firedNow = vc46Fire(h)
 			if !w.quiesce(false) {
